@@ -175,6 +175,15 @@ func runC04(c *core.Ctx) {
 		}
 	}
 	rec(nil)
+	// longer histories of the kind "sign, change, sign again with the same key (the list now holds an
+	// outdated and a current signature of that key), write, read back" - in the quick tier, too
+	histories = append(histories,
+		[]string{"sign0", "mutate", "resign-same", "dumpload"},
+		[]string{"sign2", "mutate", "resign-same", "dumpload"},
+		[]string{"sign1", "mutate", "sign1", "dumpload", "mutate", "sign1", "dumpload"},
+		[]string{"sign0", "sign1", "mutate-inplace", "sign0", "dumpload"},
+		[]string{"sign0", "dumpload", "mutate", "resign-same", "dumpload", "dumpload"},
+	)
 	posOK, negOK := int64(0), int64(0)
 	cn := 0
 	for hi, h := range histories {
@@ -736,7 +745,7 @@ func init() {
 	core.Register(&core.Property{
 		ID:    "C04",
 		Level: "exploration",
-		Rule: "(1) all operation histories of length<=3 (quick) / <=4 (thorough) over {sign(k0 Ed25519), sign(k1 ECDSA P-256), sign(k2 RSA-2048), dump+load, change a signed field, sign again with the last signer, edit an element of a collection handed out by GetPayload and set the payload again} x {link, layout} x {legacy, DSSE}; after every operation each of 4 keys (3 history keys + an outsider) must verify iff it signed the current content, and every emitted signature is verified independently with crypto/* over reference bytes (reference canonical JSON / reference DSSE PAE); (2) every key kind (RSA-2048/3072, ECDSA P-224/256/384/521, Ed25519; thorough: fresh keys too) x wrapper x payload: library signs -> stdlib verifies, dump+load, stdlib signs reference bytes -> library verifies; DSSE envelope of an independent implementation (other JSON spelling of the payload; standard or URL-safe base64 for signature / payload) loaded, verified, signed with a second key, both signatures verified by the library and independently over the dumped payload bytes; (3) single-point mutations of a file that was loaded untouched from the same path before (same size, same modification time): every payload leaf edit/delete/insert, signature first/middle/last character, empty/doubled signature, valid signature followed by a suffix (one more digit, non-hex / non-base64 characters, blank, newline, padding), key id edit, every other pool key, key objects with the signer's id and foreign material in both orders of use. " +
+		Rule: "(1) all operation histories of length<=3 (quick) / <=4 (thorough) over {sign(k0 Ed25519), sign(k1 ECDSA P-256), sign(k2 RSA-2048), dump+load, change a signed field, sign again with the last signer, edit an element of a collection handed out by GetPayload and set the payload again} plus five longer ones of the form sign / change / sign again with the same key / dump+load x {link, layout} x {legacy, DSSE}; after every operation each of 4 keys (3 history keys + an outsider) must verify iff it signed the current content, and every emitted signature is verified independently with crypto/* over reference bytes (reference canonical JSON / reference DSSE PAE); (2) every key kind (RSA-2048/3072, ECDSA P-224/256/384/521, Ed25519; thorough: fresh keys too) x wrapper x payload: library signs -> stdlib verifies, dump+load, stdlib signs reference bytes -> library verifies; DSSE envelope of an independent implementation (other JSON spelling of the payload; standard or URL-safe base64 for signature / payload) loaded, verified, signed with a second key, both signatures verified by the library and independently over the dumped payload bytes; (3) single-point mutations of a file that was loaded untouched from the same path before (same size, same modification time): every payload leaf edit/delete/insert, signature first/middle/last character, empty/doubled signature, valid signature followed by a suffix (one more digit, non-hex / non-base64 characters, blank, newline, padding), key id edit, every other pool key, key objects with the signer's id and foreign material in both orders of use. " +
 			"non-trivial = history contains a sign; distinct = (history, wrapper, payload type) / (key kind, wrapper, payload) / (mutation label...)",
 		Assumptions: []string{"Go's crypto/rsa, crypto/ecdsa, crypto/ed25519 are the trusted base (independent use, not an independent implementation)", "payloads are generated with hostile strings, a third of them with absent (nil) collections; reference bytes come from harness/ref/cjson.go"},
 		Workers:     func(string) int { return 16 },
